@@ -211,6 +211,18 @@ func pktImages() [][]byte {
 		eth(true, 0x86dd).raw(ip6(0, cat(hbh(43), rt(44), frag(17), udp(7)))).b,
 		eth(false, 0x88cc).hex("0207040a0b0c0d0e0f0403020001060200780000").b,
 	)
+	// hop-by-hop headers of 264 bytes whose first option has data length 253 / 254 / 255 (option sizes 255 / 256 / 257:
+	// an option size computed in 8 bits would be 255 / 0 / 1)
+	for _, ol := range []int{253, 254, 255} {
+		h := nb().u8(17, 32).u8(1, ol).raw(protoSeqBytes(ol, 0x40))
+		rest := 264 - len(h.b)
+		if rest >= 2 {
+			h.u8(1, rest-2).z(rest - 2)
+		} else {
+			h.z(rest)
+		}
+		out = append(out, eth(false, 0x86dd).raw(ip6(0, cat(h.b, udp(4)))).b)
+	}
 	return out
 }
 
